@@ -55,6 +55,8 @@ func c03Path(p C03Case) string {
 		return fmt.Sprint(p.Layout)
 	case "container", "hetero":
 		return p.Kind + fmt.Sprint(p.Cont)
+	case "after-failed":
+		return p.Kind + fmt.Sprint(p.Cont[0], p.Cont[2])
 	}
 	return p.File + fmt.Sprint(p.Enc, p.DictCap)
 }
@@ -262,6 +264,8 @@ func c03Run(r *core.Run, p C03Case) {
 		c03Container(r, p)
 	case "hetero":
 		c03Hetero(r, p)
+	case "after-failed":
+		c03AfterFailed(r, p)
 	case "extreme":
 		for _, e := range c03Extremes() {
 			if e.name == p.File {
@@ -436,6 +440,21 @@ func c03HeteroMenu() []ref.XZBlockSpec {
 	return c03HeteroBlocks
 }
 
+// c03AfterFailed: Cont = [x, cut, y]. A reader instance is first given the one-block stream of menu
+// block x cut to `cut` bytes (it fails somewhere in the middle), then a new reader instance decodes
+// the valid one-block stream of menu block y: whatever the failed instance left behind must not
+// reach the next one.
+func c03AfterFailed(r *core.Run, p C03Case) {
+	menu := c03HeteroMenu()
+	bx, by := menu[p.Cont[0]], menu[p.Cont[2]]
+	xs := ref.EncodeXZStream(ref.CheckCRC32, []ref.XZBlockSpec{bx})
+	if p.Cont[1] < len(xs) {
+		xzDecode(xs[:p.Cont[1]], p.DictCap, false)
+	}
+	data := ref.EncodeXZStream(ref.CheckCRC32, []ref.XZBlockSpec{by})
+	c03Judge(r, p, data, by.Plain, "after-a-failed-instance", fmt.Sprintf("block %d of the heterogeneous menu as a one-block stream, decoded after a reader instance that failed on block %d's stream cut to %d bytes, ReaderConfig.DictCap=%d", p.Cont[2], p.Cont[0], p.Cont[1], p.DictCap))
+}
+
 func c03Hetero(r *core.Run, p C03Case) {
 	menu := c03HeteroMenu()
 	var blocks []ref.XZBlockSpec
@@ -451,9 +470,35 @@ func c03Hetero(r *core.Run, p C03Case) {
 func runC03(r *core.Run) {
 	corpus := bindRef(r)
 	th := thorough(r)
-	r.Rule = "streams from the specification-driven generator: (a) ALL legal operation sequences of depth d over {lit x3, match(len x dist incl. the window edge), rep0 x2, shortrep, rep1-3} from the empty window and after fill prefixes 127/4095/4096/4097 (extended distances covering every distance-slot class); (b) a fixed op list x all 75 property sets; (b3) long runs (maximal matches at distance 1) whose length sweeps 300 consecutive values around the 4 KiB reader dictionary; (b2) eight fixed long operation walks (4000 operations each: trained contexts) x all 75 property sets; (c) every split into <=3 chunks x every legal chunk kind per position with different properties; (d) 4 checks x size fields x header padding x {0,1,2,3 blocks, empty block}, every legal block header size 12..1024, 127..300 blocks; (d2) every list of 1..3 blocks over a menu of 5 blocks with different dictionary sizes, properties, far matches, raw chunks, empty; (f) chunk size fields at their limits (65536 / 65535 compressed bytes, 2 MiB / 2 MiB-1 uncompressed, raw chunks of 65536 and 1 bytes, a single-literal chunk); (e) the frozen liblzma corpus and fresh liblzma encodings x ReaderConfig.DictCap. states = LZMA coder states entered; transitions = (state, op kind), distance-slot/length classes, chunk-automaton steps; non-trivial = distinct (case family, outcome, empty?)"
+	r.Rule = "streams from the specification-driven generator: (a) ALL legal operation sequences of depth d over {lit x3, match(len x dist incl. the window edge), rep0 x2, shortrep, rep1-3} from the empty window and after fill prefixes 127/4095/4096/4097 (extended distances covering every distance-slot class); (b) a fixed op list x all 75 property sets; (b3) long runs (maximal matches at distance 1) whose length sweeps 300 consecutive values around the 4 KiB reader dictionary; (b2) eight fixed long operation walks (4000 operations each: trained contexts) x all 75 property sets; (c) every split into <=3 chunks x every legal chunk kind per position with different properties; (d) 4 checks x size fields x header padding x {0,1,2,3 blocks, empty block}, every legal block header size 12..1024, 127..300 blocks; (d2) every list of 1..3 blocks over a menu of 5 blocks with different dictionary sizes, properties, far matches, raw chunks, empty; (f) chunk size fields at their limits (65536 / 65535 compressed bytes, 2 MiB / 2 MiB-1 uncompressed, raw chunks of 65536 and 1 bytes, a single-literal chunk); (g) every one-block stream of that menu decoded by a new reader instance after an instance that failed on another (or the same) stream cut at ~120 offsets; (e) the frozen liblzma corpus and fresh liblzma encodings x ReaderConfig.DictCap. states = LZMA coder states entered; transitions = (state, op kind), distance-slot/length classes, chunk-automaton steps; non-trivial = distinct (case family, outcome, empty?)"
 	var cases []C03Case
 	def := [3]int{3, 0, 2}
+	// (g) a valid stream decoded by a new instance after an instance that failed in the middle of a
+	// stream; run first and in one goroutine, so that nothing else touches process-wide state between
+	// the failing instance and the next one
+	{
+		menu := c03HeteroMenu()
+		ng := 0
+		for x := range menu {
+			xl := len(ref.EncodeXZStream(ref.CheckCRC32, []ref.XZBlockSpec{menu[x]}))
+			step := 1
+			if xl > 240 {
+				step = xl / 120
+			}
+			for cut := 12; cut < xl; cut += step {
+				for y := range menu {
+					for _, dc := range []int{0, 4096} {
+						if dc == 4096 && (cut/step)%4 != 0 {
+							continue
+						}
+						c03Run(r, C03Case{Kind: "after-failed", Cont: []int{x, cut, y}, DictCap: dc})
+						ng++
+					}
+				}
+			}
+		}
+		r.Extra("decodes_after_a_failed_instance", ng)
+	}
 	// (a) operation sequences, enumerated inside the workers (not materialised)
 	type opJob struct {
 		fill   int
